@@ -617,6 +617,7 @@ func rulesC12(c *Ctx) {
 	})
 
 	ruleNoSilent200(c, "R-C12-10", []string{pM}, nil, 15, 70)
+	ruleHeadersBeforeStatus(c, "R-C12-11", []string{pM}, 16)
 
 	c.Rule("R-C12-4", "header bindings are values, not views: the path recorded for each x-mcp-header annotation is a fresh slice, never an append onto the recursion's shared prefix", func() {
 		cp := c.Fn(pM, "", "collectParamHeaderAnnotations")
@@ -1117,5 +1118,70 @@ func ruleNoSilent200(c *Ctx, id string, rels []string, keep func(f *Func) bool, 
 		}
 		c.Pin("functions holding a ResponseWriter", nf, minF)
 		c.Pin("their returns", nr, minR)
+	})
+}
+
+// ruleHeadersBeforeStatus: response headers set after the status line has gone out are silently dropped by net/http.
+// For every function of rels and every http.ResponseWriter expression in it, no Header().Set/Add/Del on that writer is
+// reachable from a statement that commits the response on the same writer (WriteHeader, Write, http.Error, a helper that
+// is given the writer and writes, fmt.Fprint* to it).
+func ruleHeadersBeforeStatus(c *Ctx, id string, rels []string, minSets int) {
+	c.Rule(id, "headers are set before the status line: no Header().Set on a ResponseWriter is reachable from a WriteHeader / Write / http.Error on the same writer (a 405 without its Allow, an error body without its Content-Type)", func() {
+		nSets := 0
+		for _, rel := range rels {
+			for _, f := range c.funcsWithLits(rel) {
+				if f.Body == nil {
+					continue
+				}
+				isW := func(e ast.Expr) bool { t := f.TypeOf(e); return t != nil && isNamedType(t, "net/http", "ResponseWriter") }
+				type site struct {
+					key string
+					v   int
+					n   ast.Node
+				}
+				var sets, commits []site
+				g := f.Graph()
+				for _, call := range f.AllCalls(f.Body, false) {
+					sel, isSel := ast.Unparen(call.Fun).(*ast.SelectorExpr)
+					if isSel {
+						// w.Header().Set(...)
+						if hc, isC := ast.Unparen(sel.X).(*ast.CallExpr); isC && (sel.Sel.Name == "Set" || sel.Sel.Name == "Add" || sel.Sel.Name == "Del") {
+							if hs, isS := ast.Unparen(hc.Fun).(*ast.SelectorExpr); isS && hs.Sel.Name == "Header" && isW(hs.X) {
+								sets = append(sets, site{canonExpr(f, hs.X), g.VertexOf(call), call})
+								continue
+							}
+						}
+						if (sel.Sel.Name == "WriteHeader" || sel.Sel.Name == "Write") && isW(sel.X) {
+							commits = append(commits, site{canonExpr(f, sel.X), g.VertexOf(call), call})
+							continue
+						}
+					}
+					// a callee that is handed the writer and is known to write the status
+					if fn := f.Callee(call); fn != nil {
+						writes := (fn.Pkg() != nil && fn.Pkg().Path() == "net/http" && fn.Name() == "Error") ||
+							(fn.Pkg() != nil && fn.Pkg().Path() == "fmt" && strings.HasPrefix(fn.Name(), "Fprint")) ||
+							fn.Name() == "writeJSONRPCError" || fn.Name() == "writeEvent"
+						if writes && len(call.Args) > 0 && isW(call.Args[0]) {
+							commits = append(commits, site{canonExpr(f, call.Args[0]), g.VertexOf(call), call})
+						}
+					}
+				}
+				if len(sets) == 0 {
+					continue
+				}
+				c.touch(f)
+				for i, s := range sets {
+					nSets++
+					late := ""
+					for _, cm := range commits {
+						if cm.key == s.key && cm.v != s.v && g.ReachableFrom(cm.v)[s.v] {
+							late = f.At(cm.n)
+						}
+					}
+					c.Check(late == "", "header-before-status:"+f.Name()+"#"+itoa(i), f, s.n, "this header is set before anything commits the response (status written at %s)", late)
+				}
+			}
+		}
+		c.Pin("Header().Set sites", nSets, minSets)
 	})
 }
